@@ -449,12 +449,20 @@ def exact_queries(cs, rs, nodes, rho_g, phi_g, pairs, Minv, rho_at=None):
 def z_structure(nprng, fac):
     """per (mode, z) factor: within a mode, z slices with a complex right-hand side are followed by purely real, purely imaginary and
     identically zero ones (helical modes, z-localised perturbations): every slice is solved on its own"""
-    kind = nprng.randint(0, 4, size=fac.shape)      # 0 complex, 1 real, 2 zero, 3 imaginary
+    kind = nprng.randint(0, 6, size=fac.shape)      # 0 complex, 1 real, 2 zero, 3 imaginary, 4 nearly the previous slice, 5 tiny
     kind[:, 0] = 0
     out = np.array(fac, dtype=complex)
     out[kind == 1] = out[kind == 1].real
     out[kind == 2] = 0.0
     out[kind == 3] = 1j * out[kind == 3].imag
+    # slices that differ from their predecessor by a relative 1e-7 only (a slowly varying perturbation along z), and slices of very
+    # small amplitude (the high modes of a smooth field): each is still solved with its own right-hand side
+    for I in range(out.shape[0]):
+        for z in range(1, out.shape[1]):
+            if kind[I, z] == 4:
+                out[I, z] = out[I, z - 1] * (1.0 + 1e-7 * (0.3 + 0.7 * nprng.uniform()))
+            elif kind[I, z] == 5:
+                out[I, z] = out[I, z] * 1e-9
     return out
 
 
